@@ -9,11 +9,50 @@ import (
 )
 
 // convert incoming EEBUS json format into standard json format
+//
+// the structural characters are only replaced outside of JSON strings,
+// string contents are passed on unchanged
 func JsonFromEEBUSJson(json []byte) []byte {
-	var result = bytes.ReplaceAll(json, []byte("[{"), []byte("{"))
-	result = bytes.ReplaceAll(result, []byte("},{"), []byte(","))
-	result = bytes.ReplaceAll(result, []byte("}]"), []byte("}"))
-	result = bytes.ReplaceAll(result, []byte("[]"), []byte("{}"))
+	result := make([]byte, 0, len(json))
+
+	inString := false
+	for i := 0; i < len(json); i++ {
+		c := json[i]
+
+		if inString {
+			result = append(result, c)
+			if c == '\\' && i+1 < len(json) {
+				// keep the escaped character, it can not end the string
+				i++
+				result = append(result, json[i])
+			} else if c == '"' {
+				inString = false
+			}
+			continue
+		}
+
+		rest := json[i:]
+		switch {
+		case c == '"':
+			inString = true
+			result = append(result, c)
+		case bytes.HasPrefix(rest, []byte("[{")):
+			result = append(result, '{')
+			i++
+		case bytes.HasPrefix(rest, []byte("},{")):
+			result = append(result, ',')
+			i += 2
+		case bytes.HasPrefix(rest, []byte("}]")):
+			result = append(result, '}')
+			i++
+		case bytes.HasPrefix(rest, []byte("[]")):
+			result = append(result, '{', '}')
+			i++
+		default:
+			result = append(result, c)
+		}
+	}
+
 	// The PMCP device mistakenly adds an `0x00` byte at the end of many messages.
 	result = bytes.Trim(result, "\x00")
 	return result
